@@ -210,6 +210,35 @@ func runC01(r *Run) {
 	r.S.MaxSteps = 80000
 
 	defl, nct := o.Deflate()
+	// reach probes (computed from the plan, not from library internals)
+	for di, ms := range [][]sentMsg{c2s, s2c} {
+		thr := o.CThresh
+		if di == 1 {
+			thr = o.SThresh
+		}
+		if thr == 0 {
+			thr = 128
+			if nct {
+				thr = 512
+			}
+		}
+		hist := 0
+		for _, m := range ms {
+			n := len(m.Data)
+			if defl && n >= thr {
+				if hist > 0 && hist+n > 32768 && !nct {
+					r.S.Count("probe.window-shift-under-takeover")
+				}
+				hist += n
+			}
+			if n == thr || n == thr-1 || n == thr+1 {
+				r.S.Count("probe.threshold-boundary")
+			}
+			if n >= 1<<20 {
+				r.S.Count("probe.message>=1MiB")
+			}
+		}
+	}
 	r.Class = fmt.Sprintf("c%d/s%d/%v/%v", o.CMode, o.SMode, big, vol > 32768)
 	r.D("opts", fmt.Sprintf("%+v", o))
 	r.D("c2s", describe(c2s))
